@@ -27,7 +27,7 @@ INFO = {
                    "name in any scope of the package; the emitted callee name, the recorded keys and the operand "
                    "expressions of a recorded call come from one cache lookup in operand order. Not decided: str() "
                    "formatting of exotic numeric literals.",
-    "decided": ["C11.registry-complete", "C11.dunder-agreement", "C11.python-siblings", "C11.coefficient-kind",
+    "decided": ["C05.dual-table", "C11.registry-complete", "C11.dunder-agreement", "C11.python-siblings", "C11.coefficient-kind",
                 "C11.names", "C11.emission-pairing"],
     "not_decided": ["formatting of non-literal numeric operands via str() inside emitted source (value dependent)",
                     "by-name resolution at call time relies on C09.name-injective"],
@@ -223,7 +223,7 @@ def dual_tables(ctx, repo, which):
         tab = {}
         for kind in DUAL_KINDS:
             for r in R_CELLS:
-                it = make_interp(repo, {"r": r})
+                it = make_interp(repo, {"r": r, "p": 2, "q": 1, "d": 3 + r})
                 x = T.var("x", cls)
                 try:
                     out = it.run(qual, [x], {"kind": kind})
@@ -289,18 +289,15 @@ def norm_trees(ctx, repo, cls):
                                 f"({'sqrt(x * ~x)' if name == 'norm' else 'x / norm(x)'})", fn)
 
 
-@rule("C11.python-siblings", props=["C11"], min_instances=30, mutants=[
+@rule("C11.python-siblings", props=["C11"], min_instances=10, mutants=[
     ("recorder norm without sqrt", ("taperecorder", "        normsq = self.normsq()\n        return normsq.sqrt()\n\n    def normalized(self):\n        \"\"\" Normalized version of this multivector. \"\"\"\n        return self / self.norm()\n",
                                     "        normsq = self.normsq()\n        return normsq\n\n    def normalized(self):\n        \"\"\" Normalized version of this multivector. \"\"\"\n        return self / self.norm()\n")),
-    ("recorder undual auto r==1 -> unpolarity", ("taperecorder", "            return self.unhodge()", "            return self.unpolarity()")),
     ("recorder pow off by one", ("taperecorder", "        for i in range(1, power):\n            res = res.gp(x)", "        for i in range(0, power):\n            res = res.gp(x)")),
 ])
 def python_siblings(ctx):
     """Python-bodied siblings on the recorder have the decision tables / normal forms of MultiVector (DT + OPT)."""
     repo = ctx.repo
     pow_table(ctx, repo, "TapeRecorder", TR)
-    for which in ("dual", "undual"):
-        dual_tables(ctx, repo, which)
     norm_trees(ctx, repo, "TapeRecorder")
 
 
